@@ -27,6 +27,11 @@ Theorem C11_kepler : forall e M, 0 <= e < 1 ->
     -180 < vd < 180 /\ (0 < Ed -> 0 < vd) /\ (Ed < 0 -> vd < 0).
 Proof. exact kepler_ideal. Qed.
 
+(* an eccentricity outside [0, 1) (parabolic / hyperbolic / negative) is refused with ValueError *)
+Theorem C11_kepler_refuses : forall e M, e < 0 \/ 1 <= e ->
+  f_kepler_equation Rops (VFloat e) (ang M) = VErr ValueError.
+Proof. exact kepler_bad_ecc. Qed.
+
 (* the specification side: the bisection keeps the bracket kg(E-2d) <= m <= kg(E+2d), its n-th
    estimate has residual <= (1+e) 2 d/2^n and is within 2 d/2^n of the unique root *)
 Theorem C11_bisection_spec : forall e m n d e0 Es, 0 <= e < 1 -> 0 < d ->
@@ -101,6 +106,7 @@ Theorem C11_nodes_parabolic : forall Ef w q t asc,
 Proof. exact nodes_parabolic. Qed.
 
 Redirect "C11_kepler.assumptions" Print Assumptions C11_kepler.
+Redirect "C11_kepler_refuses.assumptions" Print Assumptions C11_kepler_refuses.
 Redirect "C11_bisection_spec.assumptions" Print Assumptions C11_bisection_spec.
 Redirect "C11_halvings.assumptions" Print Assumptions C11_halvings.
 Redirect "C11_visviva.assumptions" Print Assumptions C11_visviva.
